@@ -67,6 +67,18 @@ pub struct Node {
     pub file: usize,
     /// derives Serialize/Deserialize
     pub serde: bool,
+    /// how the serde derive is spelled: both | ser | de | qualified | split
+    pub derive: &'static str,
+    /// `pub struct X;` (struct nodes without outgoing edges only)
+    pub unit: bool,
+}
+
+pub const DERIVE_FORMS: &[&str] = &["both", "ser", "de", "qualified", "split"];
+
+impl Node {
+    pub fn new(name: String, is_enum: bool, file: usize, serde: bool) -> Node {
+        Node { name, is_enum, file, serde, derive: "both", unit: false }
+    }
 }
 
 #[derive(Clone, Debug)]
@@ -76,7 +88,7 @@ pub struct Edge {
     pub wrap: String,
 }
 
-pub const ROOT_SITES: &[&str] = &["param", "return", "result_ok", "result_err", "channel", "event"];
+pub const ROOT_SITES: &[&str] = &["param", "return", "result_ok", "result_err", "channel", "event", "event_to"];
 
 #[derive(Clone, Debug)]
 pub struct Root {
@@ -137,12 +149,20 @@ impl TypeGraph {
         for (i, n) in self.nodes.iter().enumerate() {
             let s = files.get_mut(&n.file).unwrap();
             if n.serde {
-                s.push_str("#[derive(Debug, Clone, Serialize, Deserialize, PartialEq, Eq, Hash)]\n");
+                s.push_str(match n.derive {
+                    "ser" => "#[derive(Debug, Clone, Serialize, PartialEq, Eq, Hash)]\n",
+                    "de" => "#[derive(Debug, Clone, Deserialize, PartialEq, Eq, Hash)]\n",
+                    "qualified" => "#[derive(Debug, Clone, serde::Serialize, serde::Deserialize, PartialEq, Eq, Hash)]\n",
+                    "split" => "#[derive(Debug, Clone)]\n#[derive(PartialEq, Eq, Hash)]\n#[derive(Serialize, Deserialize)]\n",
+                    _ => "#[derive(Debug, Clone, Serialize, Deserialize, PartialEq, Eq, Hash)]\n",
+                });
             } else {
                 s.push_str("#[derive(Debug, Clone, PartialEq)]\n");
             }
             if n.is_enum {
                 s.push_str(&format!("pub enum {} {{\n    First,\n    Second,\n}}\n\n", n.name));
+            } else if n.unit && !self.edges.iter().any(|e| e.from == i) {
+                s.push_str(&format!("pub struct {};\n\n", n.name));
             } else {
                 s.push_str(&format!("pub struct {} {{\n    pub id: i32,\n", n.name));
                 for (k, e) in self.edges.iter().filter(|e| e.from == i).enumerate() {
@@ -160,12 +180,13 @@ impl TypeGraph {
                 "result_ok" => s.push_str(&format!("#[tauri::command]\npub async fn try_{}() -> Result<{}, String> {{\n    todo!()\n}}\n\n", k, t.rust(true))),
                 "result_err" => s.push_str(&format!("#[tauri::command]\npub async fn fail_{}() -> Result<i32, {}> {{\n    todo!()\n}}\n\n", k, t.rust(true))),
                 "channel" => s.push_str(&format!("#[tauri::command]\npub fn stream_{}(on_item: Channel<{}>) {{}}\n\n", k, t.rust(true))),
+                "event_to" => s.push_str(&format!("pub fn tell_{}(app: &AppHandle, payload: {}) {{\n    app.emit_to(\"main\", \"evt-{}\", payload).unwrap();\n}}\n\n", k, t.rust(false), k)),
                 "event" => s.push_str(&format!("pub fn notify_{}(app: &AppHandle, payload: {}) {{\n    app.emit(\"evt-{}\", payload).unwrap();\n}}\n\n", k, t.rust(false), k)),
                 other => crate::run::infra_exit(&format!("unknown root site {}", other)),
             }
         }
         // at least one command must exist, or nothing is generated at all
-        if !self.roots.iter().any(|r| r.site != "event") {
+        if !self.roots.iter().any(|r| r.site != "event" && r.site != "event_to") {
             files.get_mut(&0).unwrap().push_str("#[tauri::command]\npub fn ping() -> i32 {\n    1\n}\n\n");
         }
         files.into_iter().map(|(i, s)| (file_path(i), s)).collect()
@@ -173,7 +194,7 @@ impl TypeGraph {
 
     pub fn summary(&self) -> serde_json::Value {
         serde_json::json!({
-            "nodes": self.nodes.iter().map(|n| format!("{}{}{}@{}", if n.is_enum {"enum "} else {"struct "}, n.name, if n.serde {""} else {" (no serde)"}, file_path(n.file))).collect::<Vec<_>>(),
+            "nodes": self.nodes.iter().map(|n| format!("{}{}{}@{}", if n.is_enum {"enum "} else if n.unit {"unit struct "} else {"struct "}, n.name, if n.serde {""} else {" (no serde)"}, file_path(n.file))).collect::<Vec<_>>(),
             "edges": self.edges.iter().map(|e| format!("{} -> {} via {}", self.nodes[e.from].name, self.nodes[e.to].name, e.wrap)).collect::<Vec<_>>(),
             "roots": self.roots.iter().map(|r| format!("{}[{}] {} @{}", r.site, r.wrap, self.nodes[r.node].name, file_path(r.file))).collect::<Vec<_>>(),
         })
@@ -189,7 +210,7 @@ pub fn random_graph(t: &mut Tape, allow_cycles: bool) -> TypeGraph {
     let mut nodes = vec![];
     for i in 0..n {
         let is_enum = t.chance(1, 4);
-        nodes.push(Node { name: TYPE_NAMES[i].to_string(), is_enum, file: t.pick(n_files), serde: true });
+        nodes.push(Node::new(TYPE_NAMES[i].to_string(), is_enum, t.pick(n_files), true));
     }
     let mut edges = vec![];
     for from in 0..n {
@@ -215,23 +236,31 @@ pub fn random_graph(t: &mut Tape, allow_cycles: bool) -> TypeGraph {
             edges.push(Edge { from, to, wrap: w });
         }
     }
+    for i in 0..n {
+        if t.chance(1, 3) {
+            nodes[i].derive = *t.choose(DERIVE_FORMS);
+        }
+        if !nodes[i].is_enum && !edges.iter().any(|e| e.from == i) && t.chance(1, 4) {
+            nodes[i].unit = true;
+        }
+    }
     let n_roots = t.range(1, 3);
     let mut roots = vec![];
     for _ in 0..n_roots {
         let site = t.choose(ROOT_SITES).to_string();
         let node = t.pick(n);
-        let w = if site == "event" || site == "result_err" { "direct".to_string() } else { t.choose(WRAPS).to_string() };
+        let w = if site == "event" || site == "event_to" || site == "result_err" { "direct".to_string() } else { t.choose(WRAPS).to_string() };
         roots.push(Root { site, wrap: w, node, file: t.pick(n_files) });
     }
     // decoys: a type without serde derive (never referenced), appended as extra nodes
     if t.chance(1, 2) {
-        nodes.push(Node { name: "PlainHelper".into(), is_enum: false, file: t.pick(n_files), serde: false });
+        nodes.push(Node::new("PlainHelper".into(), false, t.pick(n_files), false));
     }
     if t.chance(1, 3) {
-        nodes.push(Node { name: "InternalState".into(), is_enum: t.bool(), file: t.pick(n_files), serde: false });
+        nodes.push(Node::new("InternalState".into(), t.bool(), t.pick(n_files), false));
     }
     if t.chance(1, 2) {
-        nodes.push(Node { name: "UnusedDto".into(), is_enum: t.bool(), file: t.pick(n_files), serde: true });
+        nodes.push(Node::new("UnusedDto".into(), t.bool(), t.pick(n_files), true));
     }
     TypeGraph { n_files, nodes, edges, roots }
 }
